@@ -382,3 +382,8 @@ Fixpoint frounds (reaches refreshes : bool) (n : nat) (l : list fsrc) : bool * l
 
 Definition code_release_reaches : bool := true.
 Definition code_status_refreshes : bool := true.
+
+(* ------------------------------------------------------------------ (F) the request's WaitTimeout *)
+(* both queriers refuse a request whose WaitTimeout lies outside [0 .. QueryMaxWaitTimeout] before anything else *)
+Definition max_wait_timeout : Z := 60%Z.
+Definition wait_timeout_ok (w : Z) : bool := (0 <=? w)%Z && (w <=? max_wait_timeout)%Z.
